@@ -225,7 +225,7 @@ theorem pseudoLegal_pawn {p : Pos} {m : Move} (h : pseudoLegal p m = true)
     (m.dst.rank ≠ p.stm.lastRank → m.promo = none) ∧
     ((m.dst.file - m.src.file = 0 ∧ m.dst.rank - m.src.rank = p.stm.fwd ∧ p.board m.dst = none) ∨
      (m.dst.file - m.src.file = 0 ∧ m.dst.rank - m.src.rank = 2 * p.stm.fwd ∧ m.src.rank = p.stm.pawnRank ∧
-        p.board m.dst = none) ∨
+        p.board m.dst = none ∧ ∃ x, sq? m.src.file (m.src.rank + p.stm.fwd) = some x ∧ p.board x = none) ∨
      ((m.dst.file - m.src.file).natAbs = 1 ∧ m.dst.rank - m.src.rank = p.stm.fwd ∧
         ∃ x, p.board m.dst = some (x, p.stm.other)) ∨
      ((m.dst.file - m.src.file).natAbs = 1 ∧ m.dst.rank - m.src.rank = p.stm.fwd ∧ p.board m.dst = none ∧
@@ -238,9 +238,12 @@ theorem pseudoLegal_pawn {p : Pos} {m : Move} (h : pseudoLegal p m = true)
   · intro hr
     rw [if_neg hr] at hpromo
     exact Option.isNone_iff_eq_none.mp hpromo
-  · rcases hk with ((⟨⟨a, b⟩, c⟩ | ⟨⟨⟨⟨a, b⟩, c⟩, d⟩, _⟩) | ⟨⟨a, b⟩, c⟩) | ⟨⟨⟨a, b⟩, c⟩, d⟩
+  · rcases hk with ((⟨⟨a, b⟩, c⟩ | ⟨⟨⟨⟨a, b⟩, c⟩, d⟩, e⟩) | ⟨⟨a, b⟩, c⟩) | ⟨⟨⟨a, b⟩, c⟩, d⟩
     · exact Or.inl ⟨a, b, c⟩
-    · exact Or.inr (Or.inl ⟨a, b, c, d⟩)
+    · refine Or.inr (Or.inl ⟨a, b, c, d, ?_⟩)
+      cases hx : sq? m.src.file (m.src.rank + p.stm.fwd) with
+      | none => rw [hx] at e; cases e
+      | some x => rw [hx] at e; exact ⟨x, rfl, empty_iff.mp e⟩
     · exact Or.inr (Or.inr (Or.inl ⟨a, b, c⟩))
     · refine Or.inr (Or.inr (Or.inr ⟨a, b, c, ?_⟩))
       cases hq : sq? m.dst.file m.src.rank with
@@ -268,7 +271,7 @@ theorem pawn_cases {T : Tables} (hT : TablesOK T) {p : Pos} {m : Move} (h : pseu
   have hbf := ubackward_file m.dst p.stm
   have hbr := ubackward_rank m.dst p.stm
   have hcc := color_consts p.stm
-  rcases hk with ⟨a, b, c⟩ | ⟨a, b, c, d⟩ | ⟨a, b, x, c⟩ | ⟨a, b, c, q, hq, hpe, hbq⟩
+  rcases hk with ⟨a, b, c⟩ | ⟨a, b, c, d, _⟩ | ⟨a, b, x, c⟩ | ⟨a, b, c, q, hq, hpe, hbq⟩
   · -- single step
     left
     refine ⟨bool_false_of_not ?_, bool_false_of_not ?_, ?_⟩
